@@ -38,12 +38,16 @@ fn value(n: u32, es: u32, bits: u32) -> (bool, u128, i32) {
     (sign, frac, k * (1 << es) + e - fl)
 }
 
-/// compare a * 2^ea with b * 2^eb
+/// compare a * 2^ea with b * 2^eb (a, b > 0), exactly
 fn cmp_dy(a: u128, ea: i32, b: u128, eb: i32) -> std::cmp::Ordering {
-    let lo = ea.min(eb);
-    let (sa, sb) = ((ea - lo) as u32, (eb - lo) as u32);
-    assert!(sa < 100 && sb < 100 && a.leading_zeros() > sa && b.leading_zeros() > sb, "cmp_dy range");
-    (a << sa).cmp(&(b << sb))
+    assert!(a != 0 && b != 0);
+    // position of the most significant bit as a power of two
+    let (ta, tb) = (127 - a.leading_zeros() as i32 + ea, 127 - b.leading_zeros() as i32 + eb);
+    if ta != tb {
+        return ta.cmp(&tb);
+    }
+    // same leading power: left-normalise both (lossless) and compare the bit strings
+    (a << a.leading_zeros()).cmp(&(b << b.leading_zeros()))
 }
 
 /// relational posit rule: z (n bits, positive) is the rounding of y = m*2^e iff y lies between the
@@ -76,8 +80,8 @@ fn enc_matches_relational_rule() {
                     assert_eq!(got, want, "enc n={n} es={es} m={m} e={e}");
                     let got64 = r::enc64(n, es, e + p as i32, (m as u64) << (63 - p), false);
                     assert_eq!(got64, want, "enc64 n={n} es={es} m={m} e={e}");
-                    // sticky: strictly between m and m+1 (at the half ulp of m<<4 + 1)
-                    let want_s = round_rel(n, es, (m << 4) + 1, e - 4);
+                    // sticky: an excess far below every representable bit (2^-40 relative)
+                    let want_s = round_rel(n, es, (m << 40) + 1, e - 40);
                     assert_eq!(r::enc(n, es, e + p as i32, m, p, true), want_s, "enc sticky n={n} es={es} m={m} e={e}");
                     assert_eq!(r::enc64(n, es, e + p as i32, (m as u64) << (63 - p), true), want_s, "enc64 sticky");
                     checked += 1;
